@@ -153,9 +153,17 @@ pub enum PendingCompletion {
     /// Rethrow this exception after finally completes
     Throw(Guarded),
     /// Break to target after finally completes
-    Break { target: usize, try_depth: u8 },
+    Break {
+        target: usize,
+        try_depth: u8,
+        scope_depth: u16,
+    },
     /// Continue to target after finally completes
-    Continue { target: usize, try_depth: u8 },
+    Continue {
+        target: usize,
+        try_depth: u8,
+        scope_depth: u16,
+    },
 }
 
 /// A saved trampoline frame for suspension (Clone-able version without Guard)
@@ -2462,10 +2470,18 @@ impl BytecodeVM {
             }
 
             // NOTE: review
-            Op::Break { target, try_depth } => self.execute_break(target as usize, try_depth),
+            Op::Break {
+                target,
+                try_depth,
+                scope_depth,
+            } => self.execute_break(interp, target as usize, try_depth, scope_depth),
 
             // NOTE: review
-            Op::Continue { target, try_depth } => self.execute_continue(target as usize, try_depth),
+            Op::Continue {
+                target,
+                try_depth,
+                scope_depth,
+            } => self.execute_continue(interp, target as usize, try_depth, scope_depth),
 
             // ═══════════════════════════════════════════════════════════════════════════
             // Variable Access
@@ -3244,13 +3260,21 @@ impl BytecodeVM {
                             // Re-throw the exception after finally
                             return Err(JsError::ThrownValue { guarded });
                         }
-                        PendingCompletion::Break { target, try_depth } => {
+                        PendingCompletion::Break {
+                            target,
+                            try_depth,
+                            scope_depth,
+                        } => {
                             // Continue with the break (recursively handles nested finally blocks)
-                            return self.execute_break(target, try_depth);
+                            return self.execute_break(interp, target, try_depth, scope_depth);
                         }
-                        PendingCompletion::Continue { target, try_depth } => {
+                        PendingCompletion::Continue {
+                            target,
+                            try_depth,
+                            scope_depth,
+                        } => {
                             // Continue with the continue (recursively handles nested finally blocks)
-                            return self.execute_continue(target, try_depth);
+                            return self.execute_continue(interp, target, try_depth, scope_depth);
                         }
                     }
                 }
@@ -6007,7 +6031,23 @@ impl BytecodeVM {
 
     /// Execute a break, running any pending finally blocks first
     // NOTE: review
-    fn execute_break(&mut self, target: usize, try_depth: u8) -> Result<OpResult, JsError> {
+    /// Leave block scopes entered since `depth` scopes were open (restores the environment
+    /// and releases the scopes' guards), as a normal fall-through would have done with PopScope
+    fn unwind_scopes(&mut self, interp: &mut Interpreter, depth: usize) {
+        while self.saved_env_stack.len() > depth {
+            if let Some(env) = self.saved_env_stack.pop() {
+                interp.pop_scope(env);
+            }
+        }
+    }
+
+    fn execute_break(
+        &mut self,
+        interp: &mut Interpreter,
+        target: usize,
+        try_depth: u8,
+        scope_depth: u16,
+    ) -> Result<OpResult, JsError> {
         // Check if there's a try handler with a finally block between us and the target
         let target_try_depth = try_depth as usize;
 
@@ -6027,8 +6067,15 @@ impl BytecodeVM {
                 .cloned()
                 .ok_or_else(|| JsError::internal_error("Missing try handler"))?;
 
+            // The finally block runs in the scope the try statement was entered in
+            self.unwind_scopes(interp, handler.scope_depth);
+
             // Save the pending break
-            self.pending_completion = Some(PendingCompletion::Break { target, try_depth });
+            self.pending_completion = Some(PendingCompletion::Break {
+                target,
+                try_depth,
+                scope_depth,
+            });
 
             // Pop the try handler (we're exiting this try block)
             self.try_stack.truncate(handler_idx);
@@ -6040,15 +6087,23 @@ impl BytecodeVM {
         }
 
         // No finally block, do normal break (just jump)
-        // Also pop try handlers down to the target level
+        // Also pop try handlers down to the target level, and leave the block scopes
+        // between here and the target
         self.try_stack.truncate(target_try_depth);
+        self.unwind_scopes(interp, scope_depth as usize);
         self.ip = target;
         Ok(OpResult::Continue)
     }
 
     /// Execute a continue, running any pending finally blocks first
     // NOTE: review
-    fn execute_continue(&mut self, target: usize, try_depth: u8) -> Result<OpResult, JsError> {
+    fn execute_continue(
+        &mut self,
+        interp: &mut Interpreter,
+        target: usize,
+        try_depth: u8,
+        scope_depth: u16,
+    ) -> Result<OpResult, JsError> {
         // Check if there's a try handler with a finally block between us and the target
         let target_try_depth = try_depth as usize;
 
@@ -6068,8 +6123,15 @@ impl BytecodeVM {
                 .cloned()
                 .ok_or_else(|| JsError::internal_error("Missing try handler"))?;
 
+            // The finally block runs in the scope the try statement was entered in
+            self.unwind_scopes(interp, handler.scope_depth);
+
             // Save the pending continue
-            self.pending_completion = Some(PendingCompletion::Continue { target, try_depth });
+            self.pending_completion = Some(PendingCompletion::Continue {
+                target,
+                try_depth,
+                scope_depth,
+            });
 
             // Pop the try handler (we're exiting this try block)
             self.try_stack.truncate(handler_idx);
@@ -6081,8 +6143,10 @@ impl BytecodeVM {
         }
 
         // No finally block, do normal continue (just jump)
-        // Also pop try handlers down to the target level
+        // Also pop try handlers down to the target level, and leave the block scopes
+        // between here and the continue target
         self.try_stack.truncate(target_try_depth);
+        self.unwind_scopes(interp, scope_depth as usize);
         self.ip = target;
         Ok(OpResult::Continue)
     }
